@@ -71,3 +71,4 @@ Print Assumptions C13_template_is_substitution.
 Print Assumptions C13_expansion_everywhere.
 Print Assumptions C13_call_site_rule.
 Print Assumptions C13_modify_is_bottom_up_rewrite.
+Print Assumptions C13_definitions_unchanged_by_uses.
